@@ -12,7 +12,7 @@
 From Coq Require Import List NArith ZArith.
 From NV Require Import CramIdx.Crai CramIdx.CraiProofs CramIdx.Multi CramIdx.MultiProofs CramIdx.Transport CramIdx.TransportProofs CramIdx.Bytes CramIdx.BytesProofs.
 From NV Require Import Io.Source Io.ReadExact Io.ReadExactProofs Async.ReadExact CramIdx.AsyncQuery CramIdx.AsyncQueryProofs.
-From NV Require Import CramIdx.ContainerLink CramIdx.BytesQueryProofs.
+From NV Require Import CramIdx.ContainerLink CramIdx.BytesQueryProofs CramIdx.BufViewProofs CramIdx.SpanProofs.
 From NV Require Bgzf.Frame Bgzf.Inflate.
 From NV Require Import CramIdx.Gz CramIdx.GzProofs.
 From NV Require Import Trunc.Stream Trunc.Cram Bgzf.Crc32.
@@ -579,6 +579,83 @@ Theorem c19_sync_query_unmapped_equals_scan :
     = AOk (filter unplaced_flagged (flat_map m_recs f)).
 Proof. exact sync_query_unmapped_equals_scan_of_bytes. Qed.
 Print Assumptions c19_sync_query_unmapped_equals_scan.
+
+(* ---- the records as the query sees them: flags play no part --------------------------------- *)
+
+(* Reader::query converts every decoded record to a RecordBuf and `intersects` tests its reference
+   id and [alignment_start, alignment_end] only -- never the flags.  [as_buf]: a record flagged
+   unmapped has no CIGAR, so a PLACED read flagged unmapped (reference id and POS set, e.g. the
+   unmapped mate placed at its mate's position) covers its POS only, while the CRAM record and
+   the index cover start .. start + read length - 1.  With the index built from the CRAM records
+   the query over the converted records returns exactly what a scan of those records keeps: on
+   the named reference, [start, end] intersecting the region, file order, each once -- placed
+   reads flagged unmapped included (the query looks only at reference id, offset and landmark
+   of an index entry, [query_m_keys]). *)
+Theorem c19_query_equals_scan_on_converted_records :
+  forall pos f es r lo hi,
+    mfile_ok pos f -> index_m pos f = Ok es ->
+    query_m selected es (buf_file f) r lo hi = Ok (scan_m (buf_file f) r lo hi).
+Proof. exact query_buf_equals_scan. Qed.
+Print Assumptions c19_query_equals_scan_on_converted_records.
+
+(* a placed read flagged unmapped is kept exactly when it is on the named reference and its POS
+   lies in the region *)
+Theorem c19_placed_unmapped_hit_at_pos :
+  forall x r lo hi q,
+    rid x = Some q -> runm x = true ->
+    selected r lo hi (as_buf x) = ((q =? r) && (lo <=? rs x) && (rs x <=? hi))%bool.
+Proof. exact selected_placed_unmapped. Qed.
+Print Assumptions c19_placed_unmapped_hit_at_pos.
+
+(* ---- placed records WITHOUT bases: the span of an index entry (switch index_span_repaired) ---- *)
+
+(* A placed record without bases (reference id, POS, SEQ `*`: CRAM end = start - 1) occupies its
+   start position for the writer ([wrec]; io/writer/record.rs after b02b368), which builds the
+   slice header context from it; the record scan of fs/index.rs takes the end as is
+   ([irec false]) until the repair /tmp/C19/fixes/04 makes it take max(end, start) ([irec true]).
+   [index_span_repaired] (NV.CramIdx.Multi, now false) says which one the compared model follows.
+   THE AGREEMENT of the two paths of index(), through the switch: the entry the slice-header path
+   gives a single-reference / unmapped slice is the entry list the record scan would give -- for
+   ALL placed records once the switch is true, for records with start <= end as the code is. *)
+Theorem c19_index_context_path_agrees_with_scan :
+  forall pos lm sl recs,
+    recs <> [] -> Forall placed_ok recs ->
+    (index_span_repaired = true \/ Forall rec_ok recs) ->
+    slice_ctx (map wrec recs) <> Multi ->
+    [single_entry pos lm sl (slice_ctx (map wrec recs))]
+    = multi_entries pos lm sl (map (irec index_span_repaired) recs).
+Proof. intros pos lm sl recs. exact (context_path_agrees_with_scan index_span_repaired pos lm sl recs). Qed.
+Print Assumptions c19_index_context_path_agrees_with_scan.
+
+(* as the code is, index() fails on the class "a multi-reference slice holds a placed record
+   without bases": subtraction underflow when it is alone on its reference, the todo!() at POS 1
+   -- while the repaired scan gives it span 1 at its start (known finding
+   cram-index-placed-record-without-bases-span-underflow) *)
+Theorem c19_index_span_unrepaired_refuted :
+  index_x false 100 span_witness = Panic /\
+  index_x false 100 [ mkmcont 100 20 900 [ mkslice 180 720 Multi [mkrec 0 (Some 0) 3 9 false; mkrec 1 (Some 1) 1 0 true] ] ] = Panic /\
+  index_x true 100 span_witness
+  = Ok [mkentry (Some 0) (Some 3) 7 100 180 720; mkentry (Some 1) (Some 5) 1 100 180 720].
+Proof. split; [exact index_x_unrepaired_panics|]. split; [exact index_x_unrepaired_panics_at_pos_1|exact index_x_repaired_ok]. Qed.
+Print Assumptions c19_index_span_unrepaired_refuted.
+
+(* ... and OUTSIDE that class the code as it is computes what the repaired code computes *)
+Theorem c19_index_outside_span_class :
+  forall f pos,
+    span_class f = false -> Forall (fun c => Forall unplaced_sane (m_slices c)) f ->
+    index_x false pos f = index_x true pos f.
+Proof. exact index_x_outside_class. Qed.
+Print Assumptions c19_index_outside_span_class.
+
+(* after the repair: index() of a written file lists, slice after slice, the per-slice entries of
+   the records as the writer sees them (a placed record without bases: span 1 at its start) and
+   cannot panic *)
+Theorem c19_index_repaired_lists_every_slice :
+  forall pos f,
+    mfile_ok pos (map wcont_of (xfile f)) ->
+    index_x true pos (xfile f) = Ok (flat_map mspec_entries (map wcont_of (xfile f))).
+Proof. exact index_repaired_lists_every_slice. Qed.
+Print Assumptions c19_index_repaired_lists_every_slice.
 
 (* ---- the gzip layer of the .crai file (NV.CramIdx.Gz over C01's inflater and CRC-32) --------- *)
 
